@@ -64,6 +64,16 @@ type op struct {
 	Tag   string `json:"tag,omitempty"`
 	Subj  string `json:"subj,omitempty"`
 	Child string `json:"child,omitempty"`
+	// ChildTag: the child descriptor carries the annotation org.opencontainers.image.ref.name, as the child entries of an
+	// index written by an image exporter do.  It is an annotation of a nested descriptor, not a tag of the repository.
+	ChildTag string `json:"childtag,omitempty"`
+}
+
+func childDsc(o op) types.Descriptor {
+	if o.ChildTag != "" {
+		return dsc(o.Child, map[string]string{aTag: o.ChildTag})
+	}
+	return dsc(o.Child, nil)
 }
 
 func genOp(r *rand.Rand) op {
@@ -77,6 +87,9 @@ func genOp(r *rand.Rand) op {
 			c := digs[r.Intn(len(digs))]
 			if c != d {
 				o.Child = c
+				if r.Intn(3) == 0 {
+					o.ChildTag = tags[r.Intn(len(tags))]
+				}
 			}
 		}
 		return o
@@ -97,6 +110,9 @@ func genOp(r *rand.Rand) op {
 		c := digs[r.Intn(len(digs))]
 		if c != d {
 			o.Child = c
+			if r.Intn(3) == 0 {
+				o.ChildTag = tags[r.Intn(len(tags))]
+			}
 		}
 		return o
 	}
@@ -112,7 +128,7 @@ func apply(idx *types.Index, m *imodel, o op) {
 	case "addidx": // untagged insertion with the children option
 		var opts []types.IndexOpt
 		if o.Child != "" {
-			opts = append(opts, types.IndexWithChildren([]types.Descriptor{dsc(o.Child, nil)}))
+			opts = append(opts, types.IndexWithChildren([]types.Descriptor{childDsc(o)}))
 		}
 		idx.AddDesc(dsc(d, nil), opts...)
 		m.mem[d] = 1
@@ -120,7 +136,7 @@ func apply(idx *types.Index, m *imodel, o op) {
 	case "addtag":
 		var opts []types.IndexOpt
 		if o.Child != "" {
-			opts = append(opts, types.IndexWithChildren([]types.Descriptor{dsc(o.Child, nil)}))
+			opts = append(opts, types.IndexWithChildren([]types.Descriptor{childDsc(o)}))
 		}
 		idx.AddDesc(dsc(d, map[string]string{aTag: o.Tag}), opts...)
 		m.tags[o.Tag] = d
